@@ -17,7 +17,7 @@ def _n(x):
 def snapshot_at(m, s):
     out = [_n(getattr(m, g)(s)) for g in SINGLE]
     if isinstance(m, IndexMarket):
-        out.append(_n(m.get_index(s)))
+        out += [_n(getattr(m, g)(s)) for g in INDEX_SINGLE]
     return tuple(out)
 
 
@@ -59,8 +59,8 @@ def make_observers(future_checks=True):
                         s = next(i for i in range(t) if now[i] != was[i])
                         w.rec("c06_changed", m.market_id, s, t, "%s=%r" % (g, was[s]), "%s=%r" % (g, now[s]), label)
                     n += t
-                # single-time getters (incl. VWAP and index getters): two past times per observation
-                for s in sorted(set([(t * 7 + len(w.ev)) % t, t - 1])):
+                # single-time getters (incl. VWAP and index getters): time 0, the previous step and one more past time per observation
+                for s in sorted(set([0, (t * 7 + len(w.ev)) % t, t - 1])):
                     if s in r["single"] and r["single"][s] != snapshot_at(m, s):
                         w.rec("c06_changed", m.market_id, s, t, r["single"][s], snapshot_at(m, s), label)
                     n += 1
